@@ -21,4 +21,15 @@ CHECKS = {
   note=("Trusted: Lean kernel, the hand-written mirror LiquerModel/Paths.lean of ResourceQuerySegment._query_to_absolute/to_absolute and "
         "Query.to_absolute (tied by correspondence only), CPython posixpath as oracle. Directory argument assumed to consist of plain names."),
  ),
+ "C02": dict(
+  text=("Lean model of the whole pyparsing grammar (PEG over regenerated terminals and entity table) and of all encode() printers; "
+        "theorems in Props/C02.lean (side conditions of the regenerated tables; print-parse round trip for well-formed ASTs as far as proved, "
+        "see evidence: obligations vs statement-only); the model is tied to the code by bounded-exhaustive comparison (accept/reject, AST with "
+        "offsets, canonical text, fixed-point verdict, WF verdict) on all short strings over three structural alphabets plus grammar-directed "
+        "sentences and edits; the oracle checks the fixed point on the implementation for every accepted string. Two known findings "
+        "(rtq-capture, resource-header empty parameter) are genuine violations of the unchanged code and are excluded by the WF hypothesis."),
+  note=("Trusted: Lean kernel; harness/extract.py (regex -> item list conversion, entity table, grammar-shape comparison); the PEG reading of "
+        "pyparsing (ordered choice, greedy repetition without back-tracking, white-space skipping, expandtabs, parseAll) is modelled and validated "
+        "differentially, not proved; urllib unquote as in LiquerModel/Text.lean."),
+ ),
 }
